@@ -430,7 +430,9 @@ fn to_expr(f: &F, kinds: &[AtomKind], src: &mut Src, paren_extra: bool) -> Expr 
     }
 }
 
-fn check_formula(f: &F, k: usize, kinds: &[AtomKind], src: &mut Src, as_object: bool, paren_extra: bool, obs: &mut Obs) -> Res {
+/// `more`: further formulas written as further filter selectors of the same bracketed selection
+/// (`[?f, ?g]`): each contributes its own kept children, one selector after the other
+fn check_formula(f: &F, more: &[F], k: usize, kinds: &[AtomKind], src: &mut Src, as_object: bool, paren_extra: bool, obs: &mut Obs) -> Res {
     // root flags: a RootFlag atom is constant over the children; give it a random truth for this document
     let mut root: Vec<(String, J)> = vec![];
     let mut flag_truth = vec![false; k];
@@ -476,11 +478,17 @@ fn check_formula(f: &F, k: usize, kinds: &[AtomKind], src: &mut Src, as_object: 
     root.push(("h".to_string(), holder));
     let doc = J::Obj(root).sorted();
     let e = to_expr(f, kinds, src, paren_extra);
-    let q = Query { abs: true, segs: vec![nseg("h"), Seg { desc: false, sels: vec![Sel::Filter(e)], dot: false }] };
+    let mut sels = vec![Sel::Filter(e)];
+    for g in more {
+        sels.push(Sel::Filter(to_expr(g, kinds, src, paren_extra)));
+    }
+    let all_fs: Vec<&F> = std::iter::once(f).chain(more.iter()).collect();
+    let q = Query { abs: true, segs: vec![nseg("h"), Seg { desc: false, sels, dot: false }] };
     let blanks = src.chance(1, 3);
     let text = crate::gen::render_with_blanks(src, &q, blanks);
     // expected: satisfying valuations in original order
-    let exp_ids: Vec<i64> = children.iter().filter(|(v, _)| f.eval(*v)).map(|(v, _)| *v as i64).collect();
+    let kept = |flip: u32| -> Vec<i64> { all_fs.iter().flat_map(|f| children.iter().filter(|(v, _)| f.eval(*v ^ flip)).map(|(v, _)| *v as i64).collect::<Vec<_>>()).collect() };
+    let exp_ids: Vec<i64> = kept(0);
     // harness self-consistency: the reference evaluator must agree with plain Boolean evaluation
     let oracle_nodes = oracle::eval(&q, &doc, &Quirks::strict());
     let via_oracle: Vec<i64> = oracle_nodes
@@ -502,8 +510,11 @@ fn check_formula(f: &F, k: usize, kinds: &[AtomKind], src: &mut Src, as_object: 
     let map = node_map(&v);
     obs.eval(1);
     let nested = kinds[..k].iter().any(|x| matches!(x, AtomKind::NestedQ | AtomKind::NestedSelf | AtomKind::NestedDesc | AtomKind::NestedUnion));
-    let varying = !exp_ids.is_empty() && exp_ids.len() < children.len();
-    if (f.connectives() >= 2 || f.has_not() || nested) && varying {
+    let varying = !exp_ids.is_empty() && exp_ids.len() < children.len() * all_fs.len();
+    if !more.is_empty() {
+        obs.label("several-filter-selectors");
+    }
+    if (f.connectives() >= 2 || f.has_not() || nested || !more.is_empty()) && varying {
         obs.nontrivial(&(text.as_str(), doc.text()), || json!({"query": text, "doc": doc.to_value(), "formula": f.text(), "kept_ids": exp_ids}));
     }
     obs.label(if as_object { "children-of-object" } else { "children-of-array" });
@@ -549,7 +560,7 @@ fn check_formula(f: &F, k: usize, kinds: &[AtomKind], src: &mut Src, as_object: 
             }
             let doc2 = J::Obj(root2).sorted();
             // the children are the same objects; a child built for valuation v now sees the valuation v ^ flip_mask
-            let exp2: Vec<i64> = children.iter().filter(|(v, _)| f.eval(*v ^ flip_mask)).map(|(v, _)| *v as i64).collect();
+            let exp2: Vec<i64> = kept(flip_mask);
             let mut slot: Value = v.clone();
             let ids = |r: Vec<libx::LibNode>| -> Vec<i64> { r.iter().filter_map(|n| n.val.get("id").and_then(|x| x.as_i64())).collect() };
             let empty = std::collections::HashMap::new();
@@ -608,7 +619,7 @@ fn exhaustive(obs: &mut Obs, thorough: bool) -> Res {
             for r in 0..rounds {
                 let mut src = Src::new(&choices[(idx * 7 + r * 131) % 2048..]);
                 let kinds: Vec<AtomKind> = (0..3).map(|i| KINDS[(idx + i * 3 + conn + r) % KINDS.len()]).collect();
-                check_formula(f, 3, &kinds, &mut src, (idx + r) % 2 == 1, false, obs)?;
+                check_formula(f, &[], 3, &kinds, &mut src, (idx + r) % 2 == 1, false, obs)?;
                 n += 1;
             }
         }
@@ -634,7 +645,19 @@ fn random_formulas(src: &mut Src, obs: &mut Obs) -> Res {
     let f = gen_formula(src, k, 4);
     let as_object = src.chance(1, 3);
     let extra = src.chance(1, 3);
-    check_formula(&f, k, &kinds, src, as_object, extra, obs)
+    check_formula(&f, &[], k, &kinds, src, as_object, extra, obs)
+}
+
+/// several filter selectors in one bracketed selection: `[?f, ?g]` is the children kept by f followed by
+/// the children kept by g (a child kept by both appears twice), not the children kept by `f || g`
+fn random_several_filters(src: &mut Src, obs: &mut Obs) -> Res {
+    let k = 1 + src.below(3);
+    let kinds: Vec<AtomKind> = (0..k).map(|_| *src.pick(&KINDS)).collect();
+    let f = gen_formula(src, k, 2);
+    let n_more = 1 + src.below(2);
+    let more: Vec<F> = (0..n_more).map(|_| if src.chance(1, 5) { f.clone() } else { gen_formula(src, k, 2) }).collect();
+    let as_object = src.chance(1, 3);
+    check_formula(&f, &more, k, &kinds, src, as_object, false, obs)
 }
 
 /// `@` is the child under test at every nesting level, `$` is always the root
@@ -768,6 +791,7 @@ pub fn prop() -> Prop {
         subs: vec![
             Sub { name: "formulas-exhaustive", kind: Kind::Exhaustive(exhaustive) },
             Sub { name: "random-formulas", kind: Kind::Random { f: random_formulas, quick: 80_000, thorough: 1_600_000, len: 300 } },
+            Sub { name: "random-several-filters", kind: Kind::Random { f: random_several_filters, quick: 48_000, thorough: 960_000, len: 300 } },
             Sub { name: "random-scoping", kind: Kind::Random { f: random_scoping, quick: 80_000, thorough: 1_600_000, len: 200 } },
         ],
         direct: Some(direct),
